@@ -55,7 +55,12 @@ def convert(t):
     elif t.is_times():
         return convert(t.arg1) * convert(t.arg)
     elif t.is_divides():
-        return convert(t.arg1) / convert(t.arg)
+        # SymPy simplifies x / x to 1, while x / 0 = 0 in the HOL library:
+        # only division by a non-zero constant has the same meaning on both sides.
+        denom = convert(t.arg)
+        if not (denom.is_number and denom.is_zero is False):
+            raise SymPyException("convert: divisor is not a non-zero constant: %s" % str(t))
+        return convert(t.arg1) / denom
     elif t.is_nat_power() and t.arg.is_number():
         return convert(t.arg1) ** t.arg.dest_number()
     elif t.is_real_power():
